@@ -73,7 +73,8 @@ class CHECK(Check):
             "and the identity partition of all data lists / containers are compared with the model, and each object's final "
             "observation with an isolated replay of its own operations. (b) for the three families: File() == File.read(''), two "
             "File() are independent, File().write gives ''. non-trivial = >= 2 objects of the same class were operated on; "
-            "distinct = hash")
+            "distinct = hash"
+            " Later additions: date fields with ambiguous or head-sharing format lists, a no-op storage setter after every list mutation with every Line's field values observed, elements moved between files, two files emptied completely (oracle only).")
 
     def gen(self, tier, rng):
         import itertools
